@@ -18,8 +18,11 @@ DYN = {
     "sarr": ("(bool, String[3])[2]", None, None, None, None),   # placeholder (not generated)
 }
 del DYN["sarr"]
-DEFAULTS = {"bytes5": ('b"xy"', "VList [VBytes [120; 121]]")}
-MUTS = {"n": ("nonpayable", "Nonpayable"), "v": ("view", "ViewM")}
+DEFAULTS = {"bytes5": ('b"xy"', "VList [VBytes [120; 121]]"),
+            "str7": ('"hi"', "VList [VBytes [104; 105]]"),
+            "darr3": ("[1, 2]", "VList [VList [VInt 1; VInt 2]]")}
+MUTS = {"n": ("nonpayable", "Nonpayable"), "v": ("view", "ViewM"), "u": ("pure", "Pure")}
+SIZE_BOUND = {"bytes5": 96, "str7": 96, "darr3": 160, "darr8": 128, "tup": 128, "st": 160, "nest": 256}
 
 
 def iface_lines():
@@ -34,9 +37,9 @@ def caller_functions():
     """-> (source lines, [(name, ty, m, skip, dflt)])"""
     L, fns = [], []
     for ty, (vt, *_r) in DYN.items():
-        combos = [("n", False, False), ("v", False, False)]
+        combos = [("n", False, False), ("v", False, False), ("u", False, False)]
         if ty in DEFAULTS:
-            combos += [("n", False, True), ("v", True, True), ("n", True, False)]
+            combos += [("n", False, True), ("v", True, True), ("n", True, False), ("u", False, True)]
         for m, skip, dflt in combos:
             kws = []
             if skip:
@@ -45,7 +48,7 @@ def caller_functions():
                 kws.append(f"default_return_value={DEFAULTS[ty][0]}")
             kw = "".join(", " + k for k in kws)
             name = f"d_{ty}_{m}_{int(skip)}{int(dflt)}"
-            callkw = "staticcall" if m == "v" else "extcall"
+            callkw = "staticcall" if m in ("v", "u") else "extcall"
             L += ["@external", f"def {name}(x: uint256) -> {vt}:", f"    return {callkw} C(self.t).fd_{ty}_{m}(x{kw})", ""]
             fns.append((name, ty, m, skip, dflt))
     return L, fns
@@ -80,10 +83,28 @@ def corruptions(ty, rnd):
                 out.append(("CW", i, w))
     out.append(("CB", len(base) - 1, 0xFF))            # dirty padding / last data byte
     out.append(("CB", len(base) - 31, 0x80)) if len(base) >= 31 else None
+    # oversized returndata: the (valid) tail object is moved to position P at/around the declared size bound and the
+    # top-level offset word is redirected to it (must revert as soon as the item leaves min(returndatasize, size_bound))
+    sb = SIZE_BOUND[ty]
+    hw = 1 if ty == "tup" else 0                      # index of the head word holding the offset
+    off = int.from_bytes(base[32 * hw:32 * hw + 32], "big")
+    tail = base[off:]
+    for P in sorted({sb - 64, sb - 32, sb, sb + 32, sb + 64, len(base), len(base) + 32}):
+        if P < len(base) or P + len(tail) > 32 * 20:
+            continue
+        out.append(("SEQ", [("CX", bytes(P - len(base)) + tail), ("CW", hw, P)]))
+        # ... and with the length word of the moved object at the boundary values
+        if ty in ("bytes5", "str7", "darr3", "darr8"):
+            for ln in (0, bnds[0], bnds[0] + 1):
+                out.append(("SEQ", [("CX", bytes(P - len(base)) + tail), ("CW", hw, P), ("CW", P // 32, ln)]))
     return [c for c in out if c is not None]
 
 
 def apply_c(c, b):
+    if c[0] == "SEQ":
+        for x in c[1]:
+            b = apply_c(x, b)
+        return b
     if c[0] == "CW":
         i, w = c[1], c[2]
         return b[:32 * i] + w.to_bytes(32, "big") + b[32 * i + 32:]
@@ -98,6 +119,13 @@ def apply_c(c, b):
 
 
 def coq_c(c):
+    """a list of primitive corruptions (applied left to right)"""
+    if c[0] == "SEQ":
+        return "[" + "; ".join(coq_prim(x) for x in c[1]) + "]"
+    return "[" + coq_prim(c) + "]"
+
+
+def coq_prim(c):
     if c[0] == "CW":
         return f"CW {c[1]} {hexlit(c[2])}"
     if c[0] == "CT":
@@ -118,7 +146,7 @@ def model_expr(fn, cs, code=True, mode=0):
     d = f"(Some ({DEFAULTS[ty][1]}))" if dflt else "None"
     base = zb(base_encoding(ty))
     return (f"flat_map (fun c => let r := dres_to_list ({coq}) (ext_call_dyn {'true' if skip else 'false'} {d} 0 {MUTS[m][1]} ({coq}) "
-            f"(scripted_callee {'true' if code else 'false'} {mode} (apply_c c {base}))) in zlen r :: r) "
+            f"(scripted_callee {'true' if code else 'false'} {mode} (fold_left (fun b c0 => apply_c c0 b) c {base}))) in zlen r :: r) "
             f"[{'; '.join(coq_c(c) for c in cs)}]")
 
 
@@ -144,3 +172,17 @@ def in_bounds(ty, out_bytes):
            "tup": lambda: len(vals[1]) <= 5, "st": lambda: len(v[1]) <= 5,
            "nest": lambda: len(v) <= 2 and all(len(e) <= 4 for e in v)}[ty]()
     return None if lim else f"value outside the declared bounds: {vals!r}"
+
+
+def decodes_returndata(ty, returndata, out_bytes):
+    """property oracle: a successful result must be the decoding of the callee's returndata (following the offsets
+    as given), re-encoded canonically -- not of anything else (e.g. stale memory behind the return buffer)."""
+    comps = [c.replace("string", "bytes") for c in DYN[ty][2]]
+    try:
+        vals = eth_abi.decode(comps, returndata, strict=False)
+        want = eth_abi.encode(comps, list(vals))
+    except Exception:  # noqa  (eth_abi cannot follow this payload: no verdict)
+        return None
+    if want != out_bytes:
+        return f"result {out_bytes.hex()[:200]} is not the decoding of the returndata ({want.hex()[:200]})"
+    return None
